@@ -237,6 +237,9 @@ def masking(index: RepoIndex, rep, rule: str, pipe: Pipeline) -> None:
 
 
 def run(index: RepoIndex, rep) -> None:
+    rep.rule('C05.R7', 'row and column quantities are not exchanged when slicing, masking and building the view (axis typing, E14)', floor=1)
+    from ..axes import axis_rule
+    axis_rule(index, rep, 'C05.R7', ('gym_gridverse/grid.py', 'gym_gridverse/envs/observation_functions.py', 'gym_gridverse/envs/visibility_functions.py'), floor=50)
     geo = Geometry(index)
     pipe = Pipeline(index, geo)
     sub = Subgrid(index)
